@@ -471,12 +471,12 @@ pub fn run(ctx: &Ctx, report: &mut Report) {
     let sub = Ctx { id: ctx.id.clone(), tier: ctx.tier, seed: ctx.seed, shards: 2 };
     if ctx.id == "C28S" {
         report.rule = "bursts with more requests than the limit from at least four OS threads".into();
-        let cases = ctx.tier.pick(60, 1500);
+        let cases = ctx.tier.pick(300, 6000);
         run_prop(&sub, report, PropSpec { name: "rrl-os-thread-bursts", cases, max_shrink_iters: 60 }, burst, oracle_c28);
         write_summary("C28", ctx, report);
     } else {
         report.rule = "runs in which at least one request overlapped a catalog or key-set replacement".into();
-        let cases = ctx.tier.pick(40, 1000);
+        let cases = ctx.tier.pick(200, 4000);
         run_prop(&sub, report, PropSpec { name: "snapshot-os-thread-swaps", cases, max_shrink_iters: 60 }, swap_run, oracle_c32);
         write_summary("C32", ctx, report);
     }
